@@ -42,13 +42,13 @@ def run(ctx):
         total["distinct_nontrivial"] += rep["distinct_nontrivial"]
         for k, v in rep["classes"].items():
             total["classes"][k] = total["classes"].get(k, 0) + v
-    for mode in ("hostile", "symfile"):
+    for mode in ("hostile", "symfile", "bodies"):
         rep = ctx.read_harness_report(ctx.harness("replay_httpcache", [mode], out_name="replay_%s.out" % mode, timeout=600))
         total["evaluations"] += rep["evaluations"]
         for k, v in rep["classes"].items():
             total["classes"][k] = total["classes"].get(k, 0) + v
     for need in ("sym:ok_cached", "sym:dropped", "sym:notfound", "sym:hit", "sym:ok_uncached", "file:ok_cached", "file:dropped", "hostile:ok",
-                 "sym-via-locate_file:ok_cached", "sym-via-locate_file:notfound", "symfile:bad0:cut2:ok"):
+                 "sym-via-locate_file:ok_cached", "sym-via-locate_file:notfound", "symfile:bad0:cut2:ok", "bodies:line-200k:ok", "bodies:plain:ok"):
         if total["classes"].get(need, 0) == 0:
             raise core.ToolFailure("vacuous: no replayed scenario of class %s" % need)
     cov = {
